@@ -113,6 +113,8 @@ pub fn mcfg_to_json(c: &MCfg) -> Value {
         "layer_stack": c.layer_stack, "delegate": c.delegate, "block_unmapped": c.block_unmapped,
         "process_unmapped": c.process_unmapped, "concurrent_tap_hold": c.concurrent_tap_hold,
         "rapid_event_delay": c.rapid_event_delay,
+        "layermap": c.layermap,
+        "chords_v2": c.chords_v2.iter().map(|(ks, a)| json!([ks.iter().map(|k| kname(*k)).collect::<Vec<_>>(), act_to_json(a)])).collect::<Vec<_>>(),
     })
 }
 
@@ -130,6 +132,14 @@ pub fn mcfg_from_json(v: &Value) -> Option<MCfg> {
         process_unmapped: v["process_unmapped"].as_bool()?,
         concurrent_tap_hold: v["concurrent_tap_hold"].as_bool()?,
         rapid_event_delay: v["rapid_event_delay"].as_u64().map(|x| x as u16),
+        layermap: v["layermap"].as_u64().unwrap_or(0) as u16,
+        chords_v2: match v["chords_v2"].as_array() {
+            Some(a) => a
+                .iter()
+                .map(|c| Some((c[0].as_array()?.iter().map(|x| x.as_str().map(kc)).collect::<Option<Vec<_>>>()?, act_from_json(&c[1])?)))
+                .collect::<Option<Vec<_>>>()?,
+            None => vec![],
+        },
     })
 }
 
